@@ -142,8 +142,21 @@ class Spy5(Spy):
         try:
             return self._counted(name, real, args, kwargs, paths, size, still)
         finally:
-            if name in ('file.write', 'file.writelines') and len(self.log) > n0 and args:
-                self.log[n0]['data'] = _hexdata(args[0])
+            if len(self.log) > n0:
+                rec = self.log[n0]
+                if name in ('file.write', 'file.writelines') and args:
+                    rec['data'] = _hexdata(args[0])
+                # what a call that failed WOULD have been (fsspy fills these in after a successful call only)
+                if name == 'os.open' and 'flags' not in rec and len(args) > 1:
+                    rec['flags'] = args[1]
+                    rec['mode'] = args[2] if len(args) > 2 else 0o777
+                    rec['wr'] = bool(args[1] & (os.O_WRONLY | os.O_RDWR))
+                    rec['created'] = True
+                if name == 'open' and 'pymode' not in rec and len(args) > 1:
+                    rec['pymode'] = args[1]
+                    rec['wr'] = any(ch in args[1] for ch in 'wax+')
+                if name in ('os.chmod', 'os.fchmod') and 'mode' not in rec and len(args) > 1:
+                    rec['mode'] = args[1]
 
     cloexec = False      # also count (and be able to fail) the fcntl calls of set_cloexec()
 
@@ -206,7 +219,18 @@ class Spy5(Spy):
                     and rec.get('wr') and self.role(rec['paths'][0]) == 'part'):
                 out.append('X%d' % listed)     # a failing close() that closed all the same
             else:
-                out.append('F%d%d%d' % (listed, bool(rec.get('injected')), rec['call'] in UNLINK_CALLS))
+                tok = 'F%d%d%d' % (listed, bool(rec.get('injected')), rec['call'] in UNLINK_CALLS)
+                if not rec.get('injected'):
+                    # a failure the real file system produced on its own: the abstract one must refuse the same event
+                    try:
+                        ev = self._event(dict(rec, ok=True))
+                    except Exception:
+                        ev = '?'
+                    if ev[0] in 'wW' and ev[1:].isdigit():
+                        ev = ev[0] + (rec.get('data') or '')
+                    if ev not in ('n', '?', 'T', 'D') and ev[0] != 'W':
+                        tok += ':' + ev
+                out.append(tok)
         return out
 
 
@@ -765,7 +789,7 @@ class C05(Property):
             return '-' if x is None else '%d:%s' % (x[0], x[1])
 
         def half(o):
-            s = 'acc=0 exec=ok dest=%s part=%s' % (f(o['dest']), f(o['part']))
+            s = 'acc=0 exec=ok nat=ok dest=%s part=%s' % (f(o['dest']), f(o['part']))
             if o['extra']:
                 s += ' extra=' + ','.join(o['extra'])      # the model knows two names only
             return s
